@@ -253,7 +253,17 @@ def check_paths(rep, ix):
         params = {a.arg for a in f.args.args}
         rep.ob('R-C12-PATH', site, 'the output file name is a function of the input-derived path and per-file indices only', ok and not bad,
                found=f'{srcs} depends on {sorted(n for n in names if "." not in n)}; forbidden: {bad}', required='no clock, pid, random, counter or shared state in an output name', node=f, module=m)
+    # distinct inputs must give distinct outputs: only the LAST extension of the input-derived name is replaced (cutting at
+    # the first dot maps SURVEY.run1.dlis and SURVEY.run2.dlis to one output that two workers overwrite)
     m = ix.module('TotalDepth.RP66V1.ToLAS')
+    lf = ix.get_func('TotalDepth.RP66V1.ToLAS', 'las_file_name')
+    po = lf.args.args[0].arg
+    r = common.returns_of(lf)
+    e = defuse.inline_locals(lf, r[0].value, depth=4) if len(r) == 1 else None
+    src = _n(e) if e is not None else ''
+    stem_ok = f'os.path.splitext(os.path.basename({po}))[0]' in src and f'os.path.dirname({po})' in src and '.split(' not in src and 'partition(' not in src
+    rep.ob('R-C12-PATH', 'TotalDepth.RP66V1.ToLAS:las_file_name', 'the output name keeps the directory and everything before the last extension of the input-derived path', stem_ok,
+           found=src[:160], required='os.path.dirname(path) / os.path.splitext(os.path.basename(path))[0] + suffix', node=lf, module=m)
     w = ix.get_func('TotalDepth.RP66V1.ToLAS', 'write_logical_index_to_las')
     calls = sorted(_n(c) for c in common.calls_in(w) if _n(c.func) == 'las_file_name')
     rep.ob('R-C12-PATH', 'TotalDepth.RP66V1.ToLAS:write_logical_index_to_las', 'names are built from (path_out, logical file index, frame array ident)',
@@ -348,5 +358,5 @@ def run(rep, ix, tier):
     check_blocking(rep, ix)
     rep.floor('R-C12-ISOLATE', 18)
     rep.floor('R-C12-TASKS', 20)
-    rep.floor('R-C12-PATH', 4)
+    rep.floor('R-C12-PATH', 5)
     rep.floor('R-C12-SHARED', 16)
